@@ -34,6 +34,7 @@ verbatim Verus text that goes into the verus! block):
      @loop <n>               following lines are inserted before the `{` of the n-th loop (1-based, source order)
      @loopbody <n>           following lines are inserted at the start of the n-th loop's body
      @replace <n-th occurrence> /<literal>/ => /<text>/    declared token-level rewrite (R6/R7), must match
+     @beforeloop <n>         following lines (proof hints) are inserted before the n-th loop statement
      @at <n> /<literal>/     following lines (proof hints) are inserted after the n-th occurrence of the literal body text
   @end
   @open <file> | <container>                emit the container header and `{` (for traits / multi-fn impls)
@@ -435,6 +436,10 @@ class Generator:
             if ln.startswith("@entry"):
                 cur = ("entry", None)
                 continue
+            if ln.startswith("@beforeloop"):
+                cur = ("beforeloop", int(ln.split()[1]))
+                sec.setdefault("beforeloop", {}).setdefault(cur[1], [])
+                continue
             if ln.startswith("@loopbody"):
                 cur = ("loopbody", int(ln.split()[1]))
                 sec["loopbody"].setdefault(cur[1], [])
@@ -465,7 +470,9 @@ class Generator:
             if cur[0] == "contract" and s.startswith("ret ") and sec["ret"] is None and not sec["contract"]:
                 sec["ret"] = s.split()[1]
                 continue
-            if cur[0] == "at":
+            if cur[0] == "beforeloop":
+                sec["beforeloop"][cur[1]].append((ln, lno))
+            elif cur[0] == "at":
                 sec["at"][cur[1]][2].append((ln, lno))
             elif cur[0] in ("contract", "entry"):
                 sec[cur[0]].append((ln, lno))
@@ -535,7 +542,15 @@ class Generator:
             for sp in f["self_tokens"]:
                 piece.replace(sp, "self_", "R1-self")
         # return name
-        if sec["ret"]:
+        if opts.get("retty") and f["ret"] is not None:
+            # R8: an associated type of the trait (`Self::Item`) named in the signature is spelled out when the method is
+            # emitted as an inherent fn; the spec gives the concrete type, rustc checks it against the body
+            ty = f["ret"]["ty"]
+            piece.replace((ty[0], ty[1]), opts["retty"].replace("~", " "), "R8-retty")
+            if sec["ret"]:
+                piece.insert(ty[0], f"({sec['ret']}: ", "ret", order=-1)
+                piece.insert(ty[1], ")", "ret", order=1)
+        elif sec["ret"]:
             if f["ret"] is None:
                 raise GenError(f"{rel}:{lno}: ret given but fn {name} returns ()")
             ty = f["ret"]["ty"]
@@ -564,6 +579,11 @@ class Generator:
                     raise GenError(f"{rel}:{lno}: anchor lost: fn {name} has {nloops} loops, spec addresses loop {n}")
                 lp = f["loops"][n - 1]
                 piece.insert(lp["body"][0], "\n" + self.join_lines(pairs) + "\n", "loop-inv", order=0, spec_line=(rel, pairs[0][1] - 1))
+            for n, pairs in sec.get("beforeloop", {}).items():
+                if n < 1 or n > nloops:
+                    raise GenError(f"{rel}:{lno}: anchor lost: fn {name} has {nloops} loops, spec addresses loop {n}")
+                if pairs:
+                    piece.insert(f["loops"][n - 1]["span"][0], self.join_lines(pairs) + "\n", "hint", order=0, spec_line=(rel, pairs[0][1]))
             for n, pairs in sec["loopbody"].items():
                 if n < 1 or n > nloops:
                     raise GenError(f"{rel}:{lno}: anchor lost: fn {name} has {nloops} loops, spec addresses loop body {n}")
